@@ -103,6 +103,7 @@ pub proof fn lemma_s_a0(a1: int, a0: int, p: int, q: int, r: int, s: int, ft: in
     ensures mmul(s, mrows(mmul(pm(q), a0), r, nr(a0))) == mzero(nr(s), nc(a0)), nc(s) == nr(a0) - r, nr(mrows(mmul(pm(q), a0), r, nr(a0))) == nr(a0) - r,
         nc(mrows(mmul(pm(q), a0), r, nr(a0))) == nc(a0),
 {
+    bx_dims_all();
     let ap = mmul(mmul(pm(p), a1), pmi(q)); let w = mmul(pm(q), a0); let n = nr(a0); let m = nr(a1);
     bx_perm(p); bx_perm(q); bx_dims(pm(p), a1, 0, 0, 0, 0, 0); bx_dims(mmul(pm(p), a1), pmi(q), 0, 0, 0, 0, 0); bx_dims(pm(q), a0, r, n, 0, 0, 0); bx_dims(w, 0, 0, r, 0, 0, 0); bx_dims(w, 0, r, n, 0, 0, 0);
     // A' w = P a1 Q^-1 Q a0 = P (a1 a0) = 0
@@ -120,6 +121,7 @@ pub proof fn lemma_a2_s(a2: int, a1: int, p: int, q: int, r: int, s: int, ft: in
     ensures mmul(mcols(mmul(a2, pmi(p)), r, nc(a2)), s) == mzero(nr(a2), nc(s)), nr(s) == nc(a2) - r, nc(mcols(mmul(a2, pmi(p)), r, nc(a2))) == nc(a2) - r,
         nr(mcols(mmul(a2, pmi(p)), r, nc(a2))) == nr(a2),
 {
+    bx_dims_all();
     let ap = mmul(mmul(pm(p), a1), pmi(q)); let z = mmul(a2, pmi(p)); let n = nc(a1); let m = nr(a1);
     bx_perm(p); bx_perm(q); bx_dims(pm(p), a1, 0, 0, 0, 0, 0); bx_dims(mmul(pm(p), a1), pmi(q), 0, 0, 0, 0, 0); bx_dims(a2, pmi(p), r, m, 0, 0, 0); bx_dims(z, 0, 0, r, 0, 0, 0); bx_dims(z, 0, r, m, 0, 0, 0);
     // z A' = a2 P^-1 P a1 Q^-1 = (a2 a1) Q^-1 = 0
@@ -198,6 +200,7 @@ pub proof fn lemma_bs_v(t: TriangularType, a1: int, a0: int, p: int, q: int, r: 
     requires step_setup(t, a1, p, q, r, s, ft, bs, a, b, c, d), nc(a1) == nr(a0), mmul(a1, a0) == mzero(nr(a1), nc(a0)),
     ensures mmul(bs, mrows(mmul(pm(q), a0), r, nr(a0))) == mmul(pm(q), a0)
 {
+    bx_dims_all();
     let ap = mmul(mmul(pm(p), a1), pmi(q)); let w = mmul(pm(q), a0); let n = nr(a0); let m = nr(a1); let k = nc(a0);
     bx_perm(p); bx_perm(q); bx_dims(pm(p), a1, 0, 0, 0, 0, 0); bx_dims(mmul(pm(p), a1), pmi(q), 0, 0, 0, 0, 0); bx_dims(pm(q), a0, r, n, 0, 0, 0); bx_dims(w, 0, 0, r, 0, 0, 0); bx_dims(w, 0, r, n, 0, 0, 0);
     bx_assoc(mmul(pm(p), a1), pmi(q), w); bx_assoc(pmi(q), pm(q), a0); bx_id(a0); bx_assoc(pm(p), a1, a0); bx_zero_mul(pm(p), m, k);
@@ -223,6 +226,7 @@ pub proof fn lemma_z2_ft(t: TriangularType, a1: int, a2: int, p: int, q: int, r:
     requires step_setup(t, a1, p, q, r, s, ft, bs, a, b, c, d), nc(a2) == nr(a1), mmul(a2, a1) == mzero(nr(a2), nc(a1)),
     ensures mmul(mcols(mmul(a2, pmi(p)), r, nc(a2)), ft) == mmul(a2, pmi(p))
 {
+    bx_dims_all();
     let ap = mmul(mmul(pm(p), a1), pmi(q)); let z = mmul(a2, pmi(p)); let n = nc(a1); let m = nr(a1); let k = nr(a2);
     bx_perm(p); bx_perm(q); bx_dims(pm(p), a1, 0, 0, 0, 0, 0); bx_dims(mmul(pm(p), a1), pmi(q), 0, 0, 0, 0, 0); bx_dims(a2, pmi(p), r, m, 0, 0, 0); bx_dims(z, 0, 0, r, 0, 0, 0); bx_dims(z, 0, r, m, 0, 0, 0);
     bx_assoc(z, mmul(pm(p), a1), pmi(q)); bx_assoc(z, pm(p), a1); bx_assoc(a2, pmi(p), pm(p)); bx_id(a2); bx_zero_mul(pmi(q), k, n);
@@ -265,6 +269,7 @@ pub proof fn lemma_pairs(t: TriangularType, a1: int, p: int, q: int, r: int, s: 
         &&& (nc(a2) == nr(a1) && mmul(a2, a1) == mzero(nr(a2), nc(a1)) && nc(b2) == m && mmul(dd2, b2) == mmul(b3, a2)) ==> mmul(dd2, b2n) == mmul(b3, a2n)
     }),
 {
+    bx_dims_all();
     let (m, n) = (nr(a1), nc(a1)); let ap = mmul(mmul(pm(p), a1), pmi(q));
     let fs = mconcat(mzero(n - r, r), mid(n - r)); let bt = mstack(mzero(r, m - r), mid(m - r));
     let (f1n, b1n) = (mmul(fs, mmul(pm(q), f1)), mmul(mmul(b1, pmi(q)), bs));
@@ -400,6 +405,7 @@ pub proof fn lemma_no_trans(t: TriangularType, ap: int, s: int, r: int, ft: int,
         ft == mconcat(mneg(mmul(c, minv(a))), mid(nr(ap) - r)), bs == mstack(mneg(mmul(minv(a), b)), mid(nc(ap) - r)),
     ensures mmul(mconcat(mzero(nc(ap) - r, r), mid(nc(ap) - r)), bs) == mid(nc(ap) - r), mmul(ft, mstack(mzero(r, nr(ap) - r), mid(nr(ap) - r))) == mid(nr(ap) - r)
 {
+    bx_dims_all();
     let (m, n) = (nr(ap), nc(ap)); let nx = mneg(mmul(minv(a), b)); let ny = mneg(mmul(c, minv(a)));
     bx_tri_inv(t, a); bx_dims(minv(a), b, 0, 0, 0, 0, 0); bx_dims(c, minv(a), 0, 0, 0, 0, 0); bx_add_dims(mmul(minv(a), b), 0); bx_add_dims(mmul(c, minv(a)), 0);
     bx_dims(0, 0, 0, 0, n - r, 0, 0); bx_dims(0, 0, 0, 0, m - r, 0, 0);
